@@ -764,6 +764,7 @@ class map_async(Stream):
         self.args = args
         self.stop_on_exception = stop_on_exception
         self.work_queue = asyncio.Queue(maxsize=parallelism)
+        self._insert_lock = asyncio.Lock()
 
         Stream.__init__(self, upstream, stream_name=stream_name, ensure_io_loop=True)
         self.work_task = None
@@ -832,10 +833,13 @@ class map_async(Stream):
 
     async def _insert_job(self, x, metadata):
         try:
-            await self._wait_for_work_slot()
-            coro = self.func(x, *self.args, **self.kwargs)
-            task = self._create_task(coro)
-            await self.work_queue.put((task, metadata))
+            # one waiter at a time, served first come first served: a later arrival
+            # must not take the free slot ahead of an earlier one that is still waiting
+            async with self._insert_lock:
+                await self._wait_for_work_slot()
+                coro = self.func(x, *self.args, **self.kwargs)
+                task = self._create_task(coro)
+                await self.work_queue.put((task, metadata))
         except Exception as e:
             logger.exception(e)
             raise
